@@ -9,7 +9,8 @@ Step == /\ tid > 0 /\ ~judged
         /\ LET v == Judge(T[tid]) IN
              /\ bad' = v
              /\ (v # "" => PrintT(ToJson([BAD |-> v, tid |-> tid])))
-             /\ ((T[tid].err = "" /\ T[tid].status # "" /\ T[tid].predicted # "" /\ T[tid].status # T[tid].predicted) =>
+             /\ ((T[tid].err = "" /\ T[tid].status # "" /\ T[tid].predicted # "" /\ T[tid].status # T[tid].predicted
+                  /\ ~(T[tid].predicted = "python" /\ T[tid].status = "reused")) =>      \* dispatcher statistics cannot tell "no kernel used" from "kernel reused"
                     PrintT(ToJson([DRIFT |-> T[tid].predicted, seen |-> T[tid].status, tid |-> tid])))
              /\ ((v = "" /\ T[tid].broken) => PrintT(ToJson([DRIFT |-> "broken", seen |-> "correct", tid |-> tid])))
         /\ judged' = TRUE /\ UNCHANGED tid
